@@ -147,6 +147,7 @@ class IVFCLevel4Reader(RawIOBase):
 
         with self._lock:
             self._tree.write_data(4, self._seek, data)
+            self._seek += len(data)
 
             return len(data)
 
